@@ -25,7 +25,7 @@
    C08tree_usual_treeb_iff: the executable usual_treeb decides (b), (c) and the existence of a tree order.
    Instances for every n: C08tree_every_path_accepted, C08tree_every_star_accepted; caterpillar etc. by evaluation. *)
 From EoNV Require Import Prelude Graph Vec VecP Rhs2D Rhs2DP Rhs2 Rhs2GenP Master C08tG C08tS C08tT C08tR C08tA C08tO C08tF C08tC
-  C08tTreeA C08tTreeB C08tTreeC C08tTreeD C08tTreeE C08tTreeG C08tTreeH C08tTreeI C08tTreeJ.
+  C08tTreeA C08tTreeB C08tTreeC C08tTreeD C08tTreeE C08tTreeG C08tTreeH C08tTreeI C08tTreeJ C08tTreeK.
 
 (* ---------------- the definition: boolean test = inductive pendant-vertex construction ---------------- *)
 Theorem C08tree_pendant_iff : forall (adj : nat -> nat -> bool) ord,
@@ -143,6 +143,22 @@ Theorem C08tree_connected_acyclic_exact_on_M : forall G tr rc, wf_graphb G = tru
       (marginals G nodelist (master_rhs G nodelist idx tr rc p)).
 Proof. exact connected_acyclic_exact. Qed.
 
+(* any caller-supplied nodelist listing the nodes of G exactly once, index_of_node = position in it *)
+Theorem C08tree_side_conditions_any_nodelist : forall G nodelist, wf_graphb G = true -> nodelist_okb G nodelist = true ->
+  pb_wfb G nodelist (pos_in nodelist) = true /\ noloopb G nodelist = true.
+Proof. exact wf_pb_wfb_any. Qed.
+Theorem C08tree_connected_acyclic_exact_any_nodelist : forall G nodelist tr rc,
+  wf_graphb G = true -> nodelist_okb G nodelist = true -> pos_connected G nodelist -> pos_acyclic G nodelist ->
+  let idx := pos_in nodelist in
+  tree_okb G nodelist idx = true /\
+  forall p t, nonneg nodelist p -> inMs nodelist (branch_cuts G nodelist) p ->
+  veq (g_dSIR_pair_based (marginals G nodelist p) t G nodelist idx tr rc)
+      (marginals G nodelist (master_rhs G nodelist idx tr rc p)).
+Proof. exact connected_acyclic_exact_any. Qed.
+Example C08tree_nonvacuous_any_nodelist : wf_graphb ex_tree6'' = true /\ nodelist_okb ex_tree6'' (nodes_upto 6) = true /\
+  gnodes ex_tree6'' <> nodes_upto 6 /\ pos_connected ex_tree6'' (nodes_upto 6) /\ pos_acyclic ex_tree6'' (nodes_upto 6).
+Proof. exact ex_any_nodelist. Qed.
+
 (* usual_treeb DECIDES tree-ness (the bounded search is complete as well as sound) *)
 Theorem C08tree_usual_treeb_iff : forall G nodelist,
   (usual_treeb G nodelist = true <->
@@ -246,6 +262,9 @@ Print Assumptions C08tree_tree_okb_iff.
 Print Assumptions C08tree_connected_acyclic_accepted.
 Print Assumptions C08tree_connected_acyclic_exact_on_M.
 Print Assumptions C08tree_usual_treeb_iff.
+Print Assumptions C08tree_side_conditions_any_nodelist.
+Print Assumptions C08tree_connected_acyclic_exact_any_nodelist.
+Print Assumptions C08tree_nonvacuous_any_nodelist.
 Print Assumptions C08tree_every_path_is_tree.
 Print Assumptions C08tree_every_star_is_tree.
 Print Assumptions C08tree_every_path_accepted.
